@@ -232,7 +232,7 @@ func registerAll() {
 		{"truncated-frame", ConnSpec{Ops: []string{"bind"}, Expect: 1, End: "half", Name: "faulty"}},
 		{"malformed-frame", ConnSpec{Ops: []string{"bind", "garbage"}, Read: "all", Name: "faulty"}},
 		{"stops-reading", ConnSpec{Ops: []string{"search"}, H: map[int]*HSpec{1: {Frames: []int{70000}}}, Read: "none", End: "reset", RecvBuf: 1024, Name: "faulty"}},
-		{"stops-reading-and-holds", ConnSpec{Ops: []string{"search"}, H: map[int]*HSpec{1: {Frames: []int{70000}}}, Read: "none", End: "stay", EndNote: "fresh-done", RecvBuf: 1024, Name: "faulty"}},
+		{"stops-reading-and-holds", ConnSpec{Ops: []string{"search"}, H: map[int]*HSpec{1: {Frames: []int{70000}}}, Read: "none", End: "reset", EndNote: "fresh-done", RecvBuf: 1024, Name: "faulty"}},
 		{"write-after-close", ConnSpec{Ops: []string{"search"}, H: map[int]*HSpec{1: {WaitNote: "faulty-done", Frames: []int{10}}}, Read: "none", Name: "faulty"}},
 	} {
 		bystanderWaits := "faulty-done"
